@@ -443,7 +443,53 @@ class Exec:
     def ev_GeneratorExp(self, e, st, k):
         return self.comprehension(e, st, k)
 
+    def flatten_comp(self, e, st, k):
+        """[f(x, y) for x in outer for y in inner(x)]  (two generators, no conditions): a fresh sequence whose element
+        set is { f(x, y) | x in outer, y in inner(x) }, stated with two choice functions (outer / inner position of a
+        member) instead of existentials.  Order and multiplicity of the result are left unspecified (sound: nothing is
+        claimed about them); its length is only known to be >= 0."""
+        g0, g1 = e.generators
+        if g0.ifs or g1.ifs or not isinstance(g0.target, ast.Name) or not isinstance(g1.target, ast.Name):
+            raise Unsupported("nested comprehension form")
+        def got(it, st2):
+            if isinstance(it, SOpaqueObj):
+                return k(SOpaqueObj("comprehension"), st2)
+            from vf.pyvc.spec import PureEval
+            st3, src = self.iter_seq(it, st2)
+            a, b = S.fresh("a!fl", z3.IntSort()), S.fresh("b!fl", z3.IntSort())
+            x = S.wrap(src.elem, src.arr[a])
+            pe0 = PureEval(self, st3, dict(st3.env, **{g0.target.id: x}), bound=(a,))
+            inner = pe0.ev(g1.iter)
+            if isinstance(inner, SRef): inner = ops.as_seq(st3, inner)
+            if not isinstance(inner, SSeq): raise Unsupported("nested comprehension over a non-sequence")
+            y = S.wrap(inner.elem, inner.arr[b])
+            pe1 = pe0.sub(env=dict(pe0.env, **{g1.target.id: y}), bound=(b,))
+            body = pe1.ev(e.elt)
+            if isinstance(body, SRef): raise Unsupported("comprehension producing objects")
+            bt = term_of(body); es = bt.sort()
+            S._ctr[0] += 1
+            oi = z3.Function(f"fl.oi!{S._ctr[0]}", es, z3.IntSort()); ii = z3.Function(f"fl.ii!{S._ctr[0]}", es, z3.IntSort())
+            at = lambda t, ta, tb: z3.substitute(t, (a, ta), (b, tb))
+            yv = z3.Const("y!fl", es)
+            in_rng = lambda ta, tb: z3.And(ta >= 0, ta < src.n, tb >= 0, tb < at(inner.n, ta, tb))
+            member = z3.Lambda([yv], z3.And(in_rng(oi(yv), ii(yv)), yv == at(bt, oi(yv), ii(yv))))
+            n = S.fresh("fl.n", z3.IntSort()); arr = S.fresh("fl.arr", z3.ArraySort(z3.IntSort(), es))
+            st3 = st3.fact(S.seq_norm(n, arr, es))
+            el = at(bt, a, b)
+            st3 = st3.fact(z3.ForAll([a, b], z3.Implies(in_rng(a, b), z3.And(in_rng(oi(el), ii(el)), el == at(bt, oi(el), ii(el))))))
+            res = SSeq(body.ty, n, arr, setview=member)
+            st3 = ops.elem_inv_facts(ops.seq_setview_facts(st3, res), res)
+            def go(defs, st4):
+                if not defs: return k(res, st4)
+                exc, c = defs[0]
+                allc = z3.ForAll([a, b], z3.Implies(in_rng(a, b), c))
+                return self.branch(allc, st4, lambda s_: go(defs[1:], s_), lambda s_: self.raise_(exc, s_))
+            return go(list(pe0.defs), st3)
+        return self.ev(g0.iter, st, got)
+
     def comprehension(self, e, st, k):
+        if len(e.generators) == 2 and not any(g.is_async for g in e.generators):
+            return self.flatten_comp(e, st, k)
         if len(e.generators) != 1 or e.generators[0].is_async:
             raise Unsupported("nested comprehension")
         g = e.generators[0]
